@@ -28,4 +28,4 @@ For EACH change deliver, in the directory {wt}/seeded_out/A (resp. B):
  - patch.diff : `git diff` of the change against the worktree's HEAD (only that change applied);
  - demo.py : a small standalone program that uses only the public DendroPy API, exits 0 and prints PASS on the UNMODIFIED code, and exits 1 printing FAIL with a short explanation on the code with the change applied (it demonstrates a violation of the property statement above, not merely "the output changed");
  - meta.json : {{"property": "{pid}", "title": short title of the change, "what_it_breaks": one or two sentences, "needs_to_manifest": what specific input/sequence/flags are needed, "files": [...], "tests_run": the exact test command and its result line with and without the change}}.
-Verify all of this yourself: run demo.py and the test suite with the patch applied and with it reverted (`git stash` / `git checkout -- src`). Leave the worktree with NO modifications to tracked files at the end (only the untracked seeded_out directory). Finish with a brief report of the two changes.""")
+Verify all of this yourself: run demo.py and the test suite with the patch applied and with it reverted (use `git diff > patch.diff; git checkout -- src; git apply patch.diff` - NEVER `git stash`: the stash is shared between worktrees and other agents work concurrently). Run the test suite WITHOUT -x so the full list of failures can be compared. Leave the worktree with NO modifications to tracked files at the end (only the untracked seeded_out directory). Finish with a brief report of the two changes.""")
